@@ -83,6 +83,17 @@ def alpha(x, depth=0):
             return V("inst", t, ln=len(its), ks=[alpha(k, depth + 1) for k, _ in its], items=[alpha(v, depth + 1) for _, v in its])
     except Exception:
         pass
+    import datetime as _dt
+    import uuid as _uuid
+    if isinstance(x, (_dt.datetime, _dt.date, _dt.time)):
+        return V(type(x).__name__ if type(x).__module__ == "datetime" else "datesub", t, s=asc(x.isoformat()))
+    if isinstance(x, _dt.timedelta):
+        us = x.days * 86400 * 10 ** 6 + x.seconds * 10 ** 6 + x.microseconds
+        return V("timedelta", t, s="%dus" % us)
+    if isinstance(x, _uuid.UUID):
+        return V("uuid", t, s=str(x))
+    if isinstance(x, complex):
+        return V("complex", t, s=repr(x))
     import enum
     if isinstance(x, enum.Enum):
         return V("enum", t, s=asc(x.name))
